@@ -114,7 +114,20 @@ def main(pid, tier, seed, replay=None):
     if not model_ok:
         problems.append({"kind": "driver", "detail": "extracted model binary missing"})
     corpus = prop.corpus() if hasattr(prop, "corpus") else []
+    # minimised failures of earlier runs (repaired defects) are replayed first on every run
+    cdir = os.path.join(VERIF, "corpus", pid)
+    if os.path.isdir(cdir):
+        for fn in sorted(os.listdir(cdir)):
+            if fn.endswith(".json"):
+                c = json.load(open(os.path.join(cdir, fn)))
+                c = c.get("case", c)
+                c["group"] = "corpus-" + fn[:-5]
+                corpus.append(c)
     cases = corpus + list(prop.cases(tier, rng))
+    if tier == "thorough":
+        # further rounds of the random generators with derived seeds (the exhaustive parts de-duplicate away)
+        for rnd in range(1, int(os.environ.get("VERIF_ROUNDS", "8"))):
+            cases += list(prop.cases(tier, random.Random(seed * 1000003 + rnd)))
     # de-duplicate
     seen, uniq = set(), []
     for c in cases:
